@@ -275,6 +275,9 @@ func runCheck(o checkOpts) *checkResult {
 			if len(sf.PTypes) == 1 && sf.PTypes[0] == "pure" {
 				w.externPure[strings.TrimPrefix(sf.Name, "extern:")] = true
 			}
+			if len(sf.PTypes) == 1 && sf.PTypes[0] == "old" {
+				w.externOld[strings.TrimPrefix(sf.Name, "extern:")] = true
+			}
 			continue
 		}
 		w.specFns[sf.Name] = sf
@@ -626,6 +629,9 @@ func cmdDump(args []string) int {
 			}
 			if len(sf.PTypes) == 1 && sf.PTypes[0] == "pure" {
 				w.externPure[strings.TrimPrefix(sf.Name, "extern:")] = true
+			}
+			if len(sf.PTypes) == 1 && sf.PTypes[0] == "old" {
+				w.externOld[strings.TrimPrefix(sf.Name, "extern:")] = true
 			}
 			continue
 		}
